@@ -55,7 +55,9 @@ pub fn case_strategy(max_ops: usize) -> impl Strategy<Value = DynCase> {
         prop_oneof![1 => Just(0u8), 3 => Just(1u8), 3 => Just(2u8)],
         // two of three hints are multiples of the alignment (what the ports pass), the rest arbitrary
         (0u8..3, 1u16..=8, prop_oneof![3 => 1u16..=16, 1 => 1u16..=64]),
-        0u8..=6,
+        // alignments >= 16 run into the recorded lost-bucket finding (which costs 255 segment
+        // creations before the case ends): a quarter of the cases
+        prop_oneof![3 => 0u8..=3, 1 => 4u8..=6],
         1u8..=4,
         any::<bool>(),
         proptest::collection::vec(op, 0..max_ops),
@@ -69,7 +71,7 @@ pub fn case_strategy(max_ops: usize) -> impl Strategy<Value = DynCase> {
 
 fn req_align(sel: u8, hint_align_log2: u8) -> usize {
     let r = sel as usize;
-    if r < 160 { 1usize << (r * (hint_align_log2 as usize + 1) / 160) } else { 1usize << ((r - 160) * 7 / 96) }
+    if r < 200 { 1usize << (r * (hint_align_log2 as usize + 1) / 200) } else { 1usize << ((r - 200) * 7 / 56) }
 }
 
 struct Chunk {
